@@ -60,7 +60,10 @@ def gen_shutter(r, i):
 
 def gen_thermo(r, i):
     rid = "".join(r.choice(RID_CHARS) for _ in range(1 + i % 8))
-    if r.random() < 0.35:
+    if r.random() < 0.06:
+        # blanks are characters too (trailing ones included); so is whatever else a vendor puts between the letters
+        rid = r.choice(["AUX1 ", "TADIRAN ", " LG", "A B", "AB C D ", "X ", "  ", "ZM 079 ", "AB\x00CD", "A\tB"])
+    elif r.random() < 0.35:
         rid = r.choice(["ELEC7022", "ZM079055", "ZM079065", "ZM079049", "ELEC7001", "ELEC7020", "DLK65863", "AUX10", "TOP", "ZM0790"])
     d = {"state": ("ON", "OFF")[i % 2], "mode": MODES[(i // 2) % 5], "fan": FANS[(i // 10) % 4], "swing": ("ON", "OFF")[(i // 40) % 2],
          "temp_tenths": r.randrange(65536), "target": r.randrange(256), "remote_id": rid}
